@@ -3,6 +3,7 @@ import Ark.Proofs.GenBridge.Table
 import Ark.Proofs.ArchIndex
 import Ark.Proofs.Rejects
 import Ark.Props.C15World
+import Ark.Proofs.GenBridge.BookArchetype
 
 namespace Ark.Props.C15
 open Ark
@@ -83,5 +84,15 @@ theorem world_shrink_converges_fuel : type_of% @Ark.Props.C15World.shrink_conver
 
 theorem world_shrink_converges_structure : type_of% @Ark.Props.C15World.shrink_converges_structure := @Ark.Props.C15World.shrink_converges_structure
 
+
+
+/-! ### The code itself: the relation-index bookkeeping of archetype.go, translated statement by statement on every run -/
+
+/-- `archetype.FreeTable` as in the source = the model's `Archetype.freeTable` (+ the table's free flag) -/
+theorem src_freeTable : type_of% @Ark.GenBridge.Book.freeTable_eq := @Ark.GenBridge.Book.freeTable_eq
+/-- `archetype.removeTableRelations` as in the source = the model's -/
+theorem src_removeTableRelations : type_of% @Ark.GenBridge.Book.removeTableRelations_eq := @Ark.GenBridge.Book.removeTableRelations_eq
+/-- `archetype.GetFreeTable` as in the source = the model's -/
+theorem src_getFreeTable : type_of% @Ark.GenBridge.Book.getFreeTable_eq := @Ark.GenBridge.Book.getFreeTable_eq
 
 end Ark.Props.C15
